@@ -428,6 +428,8 @@ def classes():
     command, frame, address = _load()
     out = []
     for c in command.Command._commands:
+        if c.__name__.startswith("_"):
+            continue            # an abstract helper class in the list of commands: reported by run(), not exercised
         out.append((c.__module__ + "." + c.__qualname__, kind_of(c), c))
     return out
 
@@ -834,6 +836,11 @@ def _optimized_shard(k):
 
 
 def run(ctx):
+    command = _load()[0]
+    helpers = [c.__module__ + "." + c.__qualname__ for c in command.Command._commands if c.__name__.startswith("_")]
+    if helpers:
+        ctx.result.violation("C02:abstract-class-listed-as-command", {"fam": "registry", "classes": helpers[:5]},
+                             "Command._commands (the commands the library implements) lists abstract helper classes: %r" % helpers[:8])
     ctx.pmap(_optimized_shard, list(range(16)))
     allc = classes()
     # heavy classes (instance commands, two-param specials, light events) get their own shard
